@@ -183,6 +183,8 @@ def to_z3(v, ty=None):
         return ty.mk(*[to_z3(v.cd[n], t) for n, t in zip(ty.names, ty.ts)])
     if isinstance(ty, TKey) and isinstance(v, Box) and v.ty is None and not v.cd:
         return z3.Const('empty_' + ty.name, ty.sort())      # the empty dict literal as an opaque value of this sort
+    if isinstance(v, Box) and v.ty is None and not v.cd and isinstance(ty, (TSeq, TMap, TSet)):
+        return ty.empty()                                   # an empty literal ([] / {} / set()) where a typed container is expected
     if isinstance(v, Box):
         v = SV(v.ty, v.e)
     if isinstance(v, SV):
